@@ -34,7 +34,7 @@ def clamp_regions(ctx, rule='A16'):
         env = {'len(self.options)': n, 'self.is_discrete': True}
         reps = interval.representatives([0, n - 1, n], integer=True)
         for v in reps:
-            it = interval.RegionInterp(var, env)
+            it = interval.RegionInterp(var, env, helpers=interval.unit_helpers(ctx, fn))
             out, _ = it.run(body, v, flags={'self.is_discrete': True,
                                             'self.bounds is None and self.options is None': False})
             n_checked += 1
@@ -47,7 +47,7 @@ def clamp_regions(ctx, rule='A16'):
         env = {'self.bounds[0]': lo, 'self.bounds[1]': hi}
         reps = interval.representatives([lo, hi], integer=False)
         for v in reps:
-            it = interval.RegionInterp(var, env)
+            it = interval.RegionInterp(var, env, helpers=interval.unit_helpers(ctx, fn))
             out, _ = it.run(body, v, flags={'self.is_discrete': False,
                                             'self.bounds is None and self.options is None': False})
             n_checked += 1
